@@ -10,6 +10,9 @@ the entry state comes back is property C03); the cross-references are still chec
 """
 from bcc import histories_c01c02 as H
 
+# failures: {"key": class, "witness": "<base>|<solver>|<canonical JSON of the minimal history>" (or "random:<class>"),
+#            "source": "deterministic" | "random", "failure": text, "replay": {...}} - see NOTES_C02.md / KNOWN_C02.json
+
 KNOWN_KEYS = set()
 
 
